@@ -137,6 +137,7 @@ type Outcome struct {
 	Conds   []Cond
 	Trace   []Event
 	Mem     map[string]*T
+	Lit     map[string]*T // stores this path made into objects it allocated (survives havoc)
 	Pos     token.Pos
 }
 
@@ -205,10 +206,19 @@ type symState struct {
 	nobj   int
 	visit  map[*ssa.BasicBlock]int
 	defers []*ssa.Defer
+	// lit: what this path itself stored into objects it allocated (composite literals,
+	// field initialisation) — kept when a later callee that is handed the object
+	// makes mem forget it
+	lit map[string]*T
+	// concrete: header visits on this path whose test was decided by constant folding (capped)
+	concrete int
 }
 
 func (s *symState) clone() *symState {
-	n := &symState{env: make(map[ssa.Value]*T, len(s.env)), mem: make(map[string]*T, len(s.mem)), ckey: make(map[string]bool, len(s.ckey)), seq: make(map[string]int, len(s.seq)), nobj: s.nobj, visit: make(map[*ssa.BasicBlock]int, len(s.visit))}
+	n := &symState{env: make(map[ssa.Value]*T, len(s.env)), mem: make(map[string]*T, len(s.mem)), ckey: make(map[string]bool, len(s.ckey)), seq: make(map[string]int, len(s.seq)), nobj: s.nobj, visit: make(map[*ssa.BasicBlock]int, len(s.visit)), concrete: s.concrete, lit: make(map[string]*T, len(s.lit))}
+	for k, v := range s.lit {
+		n.lit[k] = v
+	}
 	for k, v := range s.env {
 		n.env[k] = v
 	}
@@ -268,6 +278,10 @@ func Enumerate(fn *ssa.Function, opts SymOpts) ([]*Outcome, string) {
 		if opaque != nil && opaque(f) {
 			return false
 		}
+		// function literals written inside the function under analysis are its own code
+		if f.Parent() != nil && outermost(f) == fn {
+			return true
+		}
 		return origInline(f) || isNewFunc(f) || isTransparentLib(f)
 	}
 	sy := &Sym{opts: opts}
@@ -277,9 +291,21 @@ func Enumerate(fn *ssa.Function, opts SymOpts) ([]*Outcome, string) {
 		args = append(args, &T{Op: "param", Name: p.Name(), Typ: p.Type()})
 	}
 	sy.execFn(fn, args, nil, st, 0, func(kind, why string, res []*T, s *symState, pos token.Pos) {
-		sy.out = append(sy.out, &Outcome{Kind: kind, Why: why, Results: res, Conds: s.conds, Trace: s.trace, Mem: s.mem, Pos: pos})
+		sy.out = append(sy.out, &Outcome{Kind: kind, Why: why, Results: res, Conds: s.conds, Trace: s.trace, Mem: s.mem, Lit: s.lit, Pos: pos})
 	})
 	return sy.out, sy.abort
+}
+
+// boundMethod: f is the synthetic wrapper go/ssa makes for a method value x.M;
+// returns M.
+func boundMethod(f *ssa.Function) *ssa.Function {
+	if f == nil || !strings.HasPrefix(f.Synthetic, "bound method wrapper") {
+		return nil
+	}
+	if m, ok := f.Object().(*types.Func); ok && f.Prog != nil {
+		return f.Prog.FuncValue(m)
+	}
+	return nil
 }
 
 type contFn func(kind, why string, res []*T, s *symState, pos token.Pos)
@@ -413,7 +439,11 @@ func (sy *Sym) execFrom(fn *ssa.Function, b *ssa.BasicBlock, start int, st *symS
 			base := sy.val(st, x.X)
 			st.env[x] = &T{Op: "field", Name: stt.Field(x.Field).Name(), Args: []*T{base}, Typ: x.Type(), s: base.String() + "." + stt.Field(x.Field).Name()}
 		case *ssa.IndexAddr:
-			st.env[x] = &T{Op: "iaddr", Args: []*T{sy.val(st, x.X), sy.val(st, x.Index)}, Typ: x.Type()}
+			base := sy.val(st, x.X)
+			if base.Op == "slice" && base.K != nil && len(base.Args) == 4 && rootsAtObj(base.Args[0]) {
+				base = base.Args[0] // element i of a[:] is element i of the local array a
+			}
+			st.env[x] = &T{Op: "iaddr", Args: []*T{base, sy.val(st, x.Index)}, Typ: x.Type()}
 		case *ssa.Index:
 			base, idx := sy.val(st, x.X), sy.val(st, x.Index)
 			if ft := frozenGlobalOfTerm(base); ft != nil && !ft.IsMap {
@@ -468,10 +498,26 @@ func (sy *Sym) execFrom(fn *ssa.Function, b *ssa.BasicBlock, start int, st *symS
 					args = append(args, &T{Op: "none", s: "_"})
 				}
 			}
-			st.env[x] = &T{Op: "slice", Args: args, Typ: x.Type()}
+			t := &T{Op: "slice", Args: args, Typ: x.Type()}
+			// a[:] of a local array (a variadic call's argument list, an array literal):
+			// its length is the array's
+			if x.Low == nil && x.High == nil && x.Max == nil {
+				if pt, ok := x.X.Type().Underlying().(*types.Pointer); ok {
+					if at, ok := pt.Elem().Underlying().(*types.Array); ok {
+						t.K = constant.MakeInt64(at.Len())
+					}
+				}
+			}
+			st.env[x] = t
 		case *ssa.Store:
 			addr, v := sy.val(st, x.Addr), sy.val(st, x.Val)
 			st.mem[addr.String()] = v
+			if rootsAtObj(addr) {
+				if st.lit == nil {
+					st.lit = map[string]*T{}
+				}
+				st.lit[addr.String()] = v
+			}
 			if !rootsAtObj(addr) {
 				st.trace = append(st.trace, Event{Kind: "store", Name: addr.String(), Args: []*T{v}, Pos: x.Pos()})
 			}
@@ -690,6 +736,10 @@ func binT(op token.Token, x, y *T, typ types.Type) *T {
 	if (op == token.EQL || op == token.NEQ) && ((x.Boxed && y.IsNil()) || (y.Boxed && x.IsNil())) {
 		return &T{Op: "const", K: constant.MakeBool(op == token.NEQ), Typ: typ}
 	}
+	// errors.New / fmt.Errorf always return a non-nil error
+	if (op == token.EQL || op == token.NEQ) && ((neverNilCall(x) && y.IsNil()) || (neverNilCall(y) && x.IsNil())) {
+		return &T{Op: "const", K: constant.MakeBool(op == token.NEQ), Typ: typ}
+	}
 	if x.IsNil() && y.IsNil() && (op == token.EQL || op == token.NEQ) {
 		return &T{Op: "const", K: constant.MakeBool(op == token.EQL), Typ: typ}
 	}
@@ -735,6 +785,17 @@ func binT(op token.Token, x, y *T, typ types.Type) *T {
 		return notT(mk("<", x, y))
 	}
 	return mk(op.String(), x, y)
+}
+
+func neverNilCall(t *T) bool {
+	if t == nil {
+		return false
+	}
+	if t.Op == "call" && (t.Name == "errors.New" || t.Name == "fmt.Errorf") {
+		return true
+	}
+	// the address of an object allocated on this path (&T{…}, new(T)) is never nil
+	return t.Op == "obj" && strings.HasPrefix(t.String(), "&")
 }
 
 // strLenTest: comparisons of len(s) with 0 / 1 for a string s are the same
@@ -787,6 +848,18 @@ func strLenTest(op token.Token, x, y *T, typ types.Type) *T {
 }
 
 func (sy *Sym) execIf(fn *ssa.Function, b *ssa.BasicBlock, x *ssa.If, st *symState, depth int, k contFn) {
+	// a test decided by the values on this path (the counter of a loop over a
+	// literal list against its constant length): this visit of the block does not
+	// use up the unrolling bound — up to a hard cap, so a constant-true loop still ends
+	if c := sy.val(st, x.Cond); c.Op == "const" && c.K != nil && c.K.Kind() == constant.Bool && st.concrete < 64 && st.visit[b] > 0 {
+		st.concrete++
+		st.visit[b]--
+		for d := range st.visit {
+			if d != b && d.Parent() == b.Parent() && b.Dominates(d) {
+				delete(st.visit, d) // the blocks of the iteration about to start count afresh
+			}
+		}
+	}
 	sy.branchOn(sy.val(st, x.Cond), st,
 		func(s *symState) { sy.execBlock(fn, b.Succs[0], b, s, depth, k) },
 		func(s *symState) { sy.execBlock(fn, b.Succs[1], b, s, depth, k) })
@@ -809,6 +882,8 @@ func (sy *Sym) branchOn(c *T, st *symState, yes, no func(s *symState)) {
 		}
 	}
 	if c.Op == "const" && c.K != nil && c.K.Kind() == constant.Bool {
+		// decided by the values on this path (a counted loop over a literal list):
+		// such an iteration does not use up the unrolling bound, up to a hard cap
 		pick(constant.BoolVal(c.K), st)
 		return
 	}
@@ -898,6 +973,9 @@ func (sy *Sym) callName(st *symState, cc *ssa.CallCommon) (string, *ssa.Function
 				bindings = append(bindings, sy.val(st, bv))
 			}
 		}
+		if m := boundMethod(f); m != nil && len(bindings) == 1 {
+			return funcCallName(m), m, append([]*T{bindings[0]}, args...), nil
+		}
 		return staticCalleeName(cc), f, args, bindings
 	}
 	if bi, ok := cc.Value.(*ssa.Builtin); ok {
@@ -908,6 +986,12 @@ func (sy *Sym) callName(st *symState, cc *ssa.CallCommon) (string, *ssa.Function
 		// a declared function reached through a function value (e.g. taken from a
 		// frozen table): the same call as the static one
 		return funcCallName(fv.Fn), fv.Fn, args, nil
+	}
+	if fv.Op == "closure" && fv.Fn != nil && len(fv.Args) == 1 {
+		// a method value (x.M) handed around as a function: calling it is calling x.M
+		if m := boundMethod(fv.Fn); m != nil {
+			return funcCallName(m), m, append([]*T{fv.Args[0]}, args...), nil
+		}
 	}
 	if (fv.Op == "closure" || fv.Op == "fn") && fv.Fn != nil {
 		return "closure:" + fv.Name, fv.Fn, args, fv.Args
@@ -939,6 +1023,11 @@ func (sy *Sym) execCall(fn *ssa.Function, b *ssa.BasicBlock, i int, x *ssa.Call,
 				k(kind, why, res, s, pos)
 			}
 		})
+		return
+	}
+	if (name == "builtin:len" || name == "builtin:cap") && len(args) == 1 && args[0].Op == "slice" && args[0].K != nil {
+		st.env[x] = &T{Op: "const", K: args[0].K, Typ: types.Typ[types.Int]}
+		sy.execFrom(fn, b, i+1, st, depth, k)
 		return
 	}
 	if (name == "builtin:len" || name == "builtin:cap") && len(args) == 1 {
